@@ -448,7 +448,20 @@ func genPkt(r *vgen.Rand, t *table, forFwd bool) *pkt {
 	p.src = uint32(10)<<24 | uint32(r.Intn(4))<<16 | uint32(r.Intn(65536))
 	p.tos = uint8(vgen.Pick(r, 0, 40, 184, r.Intn(256)))
 	p.proto = vgen.Pick[uint8](r, 6, 17, 17, 6, 17)
-	sp, dp := uint16(r.U64()), uint16(vgen.Pick(r, 80, 53, 443, 1024, 8080, int(uint16(r.U64()))))
+	// ports for which gopacket has no application-layer decoder (it picks one by port)
+	port := func(cands ...int) uint16 {
+		for {
+			v := uint16(vgen.Pick(r, cands...))
+			if r.Chance(1, 3) {
+				v = uint16(r.U64())
+			}
+			if layers.UDPPort(v).LayerType() == gopacket.LayerTypePayload &&
+				layers.TCPPort(v).LayerType() == gopacket.LayerTypePayload {
+				return v
+			}
+		}
+	}
+	sp, dp := port(40000, 50000, 1025), port(80, 8080, 1024, 8443, 79, 81)
 	if p.proto == 6 {
 		p.l4bytes = make([]byte, 20+r.Intn(8))
 		binary.BigEndian.PutUint16(p.l4bytes[0:], sp)
@@ -483,6 +496,27 @@ func genPkt(r *vgen.Rand, t *table, forFwd bool) *pkt {
 				p.l4bytes = p.l4bytes[:r.Intn(8)]
 			}
 			p.l4, p.payloadOK, p.how = nil, false, "l4-truncated"
+			if len(p.l4bytes) == 0 { // no payload at all: nothing left to decode
+				p.payloadOK, p.how = true, "l4-absent"
+				if p.v6 { // gopacket's IPv6 header decoder rejects payload length 0 without a hop-by-hop header
+					p.hdrOK, p.how = false, "v6-length0"
+				}
+			}
+		case 2: // UDP to a port for which gopacket has a decoder that rejects the payload
+			dp = vgen.Pick[uint16](r, 53, 123, 4789)
+			p.proto = 17
+			p.l4bytes = make([]byte, 8+r.Intn(4))
+			binary.BigEndian.PutUint16(p.l4bytes[0:], sp)
+			binary.BigEndian.PutUint16(p.l4bytes[2:], dp)
+			binary.BigEndian.PutUint16(p.l4bytes[4:], uint16(len(p.l4bytes)))
+			for i := 8; i < len(p.l4bytes); i++ {
+				p.l4bytes[i] = byte(i)
+			}
+			if len(p.l4bytes) > 8 { // with an empty payload nothing is decoded
+				p.l4, p.payloadOK, p.how = &[2]uint16{sp, dp}, false, "app-undecodable"
+			} else {
+				p.l4 = &[2]uint16{sp, dp}
+			}
 		}
 	}
 	return p
@@ -1018,7 +1052,7 @@ func main() {
 			deliv = deliv || ok
 			run.Tally(fmt.Sprintf("fwd:delivered=%v", ok))
 			if ps[j].hdrOK && !ps[j].payloadOK && !ps[j].frag && len(raws[j]) > 0 {
-				known = true
+				known = true // the class of the repaired defect (see known_findings.d/C42.json)
 			}
 		}
 		if known {
